@@ -34,6 +34,34 @@ def run(ctx):
         n, steps = 300, 25000
     pr = [1 + rng.randrange(6) for _ in range(n)]
     impl_phase(ctx, "rand", exe, ["random", ctx.seed, steps, 2], ["".join(map(str, pr)), 1, 1], "TraceHeap", pdef(pr), consts(pr), props)
+    # growth past the powers of two (slot navigation by the bits of the size): a directed history - fill to N,
+    # with a pop and a re-push at every size 2^k-1, 2^k, 2^k+1 on the way up and again on the way down -
+    # replayed into the real code and judged by the contract only (L1 on 600-node states adds nothing new)
+    nbig = 600 if ctx.quick else 1300
+    big = [1 + rng.randrange(9) for _ in range(nbig)]
+    crit = {2 ** k + d for k in range(1, 11) for d in (-1, 0, 1)}
+    lines, size, nxt, free = ["reset"], 0, 1, []
+    def push():
+        nonlocal size, nxt
+        if free:
+            lines.append(f"0 {free.pop()}")
+        else:
+            lines.append(f"0 {nxt}"); nxt += 1
+        size += 1
+    while size < nbig - 80:
+        push()
+        if size in crit:
+            lines.append("1"); size -= 1      # which element leaves is the heap's business: the driver tracks it
+            # the popped element becomes available again: the driver's `held` bookkeeping is authoritative, so
+            # re-push a fresh pool element instead of guessing which one came out
+            push()
+    while size > 0:
+        lines.append("1"); size -= 1
+        if size in crit and nxt <= nbig:
+            push(); lines.append("1"); size -= 1
+    script = ctx.work / "ramp.ops"
+    script.write_text("\n".join(lines) + "\n")
+    impl_phase(ctx, "ramp", exe, ["replay", script], ["".join(map(str, big)), 0, 1], "TraceHeap", pdef(big), consts(big), props, levels=(2,))
     ctx.assumptions += [
         "TLC and the TLA+ text of the contract in HeapOps.tla (HeapOK, TopContract, PopContract) are trusted",
         "the driver reads root/parent/left/right/size from the real structs",
